@@ -111,6 +111,12 @@ def driverFuns : Funs := fun f pos kw =>
     | [.int t, .arr l] => [.arr (l.map (Option.map (fun x => -2 * x + t)))]
     | [.int t, .int x] => [.int (-2 * x + t)]
     | _ => [.undef]
+  else if f = "<func>split" then
+    -- two results: (2*y, -y)
+    match bindArgs ["y"] pos kw with
+    | [.arr l] => [.arr (l.map (Option.map (fun x => 2 * x))), .arr (l.map (Option.map (fun x => -x)))]
+    | [.int x] => [.int (2 * x), .int (-x)]
+    | _ => [.undef]
   else if f = "<builtin>elementwise_abs" then
     match bindArgs ["x"] pos kw with
     | [.arr l] => [.arr (l.map (Option.map (fun x => if x < 0 then -x else x)))]
